@@ -414,6 +414,13 @@ class Session:
             return self._call("auth", lambda: self.obj.authenticate(tok, key), creds, reply)
         return self._call("auth", lambda: self.lan.authenticate(tok, key, retries=self.retries), creds, reply)
 
+    def reprovision(self):
+        """The unit is provisioned anew (paired again with the cloud): from now on it accepts the OTHER credential pair and no longer the old one.
+        No event: what the model calls good / bad credentials is relative to what the unit accepts.  Callers authenticate explicitly right after."""
+        self.tok_good, self.tok_bad = self.tok_bad, self.tok_good
+        self.key_good, self.key_bad = self.key_bad, self.key_good
+        self.dev.token, self.dev.key = self.tok_good, self.key_good
+
     def call_op(self, name, reply=None):
         """Device-level operation (refresh/apply/...) on the AirConditioner; its LAN exchanges appear as ordinary send calls."""
         assert self.task is None and self.target != "lan"
